@@ -110,6 +110,7 @@ static int peer_closed_early_at;   /* agent closes before/while the request is w
 static int delivered;              /* reply bytes consumed by the module */
 static unsigned char reqbuf[2200]; static int req_len;
 static int nreads, nwrites, nselects, eintr_budget, short_io;
+static long long sig_period_us;    /* the host process is interrupted by a signal this often (0: never) */
 static int batch_chunk;            /* batch mode: bytes accepted per write / send call (0 = all) */
 static int stale_errno_mode;       /* leave errno = EINTR around successful calls */
 static int sock_open, sock_closed, fd_out = 5;
@@ -192,7 +193,12 @@ int sim_select(int nfds, fd_set *r, fd_set *w, fd_set *e, struct timeval *tv) {
   if (tv && (tv->tv_sec < 0 || tv->tv_usec < 0 || tv->tv_usec >= 1000000)) { errno = EINVAL; logf_("select() = -1 EINVAL (timeout %ld s %ld us)", (long)tv->tv_sec, (long)tv->tv_usec); return -1; }
   long long to = tv ? (long long)tv->tv_sec * 1000000 + tv->tv_usec : -1;
   if (eintr_budget > 0 && chance("select-eintr", 1, 12)) { eintr_budget--; errno = EINTR; now_us += 1000; logf_("select() = -1 EINTR"); return -1; }
+  /* a host process with an interval timer (or busy children): a select that would block beyond
+     the next signal returns EINTR at that moment, every time */
+  #define SIG_INTERRUPTS(until) (sig_period_us > 0 && (now_us / sig_period_us + 1) * sig_period_us < (until))
+  #define SIG_DELIVER() do { now_us = (now_us / sig_period_us + 1) * sig_period_us; errno = EINTR; logf_("select() = -1 EINTR (periodic signal at %lld ms)", now_us / 1000); return -1; } while (0)
   if (w) {
+    if (peer_stops_reading_at >= 0 && req_len >= peer_stops_reading_at && to >= 0 && SIG_INTERRUPTS(now_us + to)) SIG_DELIVER();
     if (peer_stops_reading_at >= 0 && req_len >= peer_stops_reading_at) { now_us += to; FD_ZERO(w); logf_("select(write) times out after %lld ms (agent not reading)", to / 1000); return 0; }
     logf_("select(write) = 1");
     return 1;
@@ -202,6 +208,8 @@ int sim_select(int nfds, fd_set *r, fd_set *w, fd_set *e, struct timeval *tv) {
     int eof; long long nxt; int av = avail_at(now_us, &eof, &nxt);
     if (reset_on_read >= 0 && nreads >= reset_on_read) { logf_("select(read) = 1 (reset pending)"); return 1; }
     if (av > 0 || eof) { logf_("select(read) = 1 (avail=%d eof=%d)", av, eof); return 1; }
+    if (nxt >= 0 && (to < 0 || nxt - now_us <= to)) { if (SIG_INTERRUPTS(nxt)) SIG_DELIVER(); }
+    else if (to >= 0 && SIG_INTERRUPTS(now_us + to)) SIG_DELIVER();
     if (nxt >= 0 && (to < 0 || nxt - now_us <= to)) { logf_("select(read) waits %lld ms", (nxt - now_us) / 1000); now_us = nxt; return 1; }
     now_us += to; FD_ZERO(r); logf_("select(read) times out after %lld ms", to / 1000);
     return 0;
@@ -397,6 +405,7 @@ static void run_call(int callno) {
   peer_closed_early_at = (!fault_free && chance("epipe", 1, 12)) ? choose("epipe-at", 40) : -1;
   eintr_budget = fault_free ? 0 : choose("eintr-budget", 4);
   short_io = fault_free ? 0 : choose("short-io", 2);
+  sig_period_us = (!fault_free && chance("periodic-signal", 1, 8)) ? (long long[]){100000, 500000, 1500000, 2900000}[choose("signal-period", 4)] : 0;
   stale_errno_mode = choose("stale-errno", 3) == 1;
   int ambient = (int[]){0, EINTR, EAGAIN, ENOENT}[choose("ambient-errno", 4)];
 
@@ -478,7 +487,7 @@ static void eval_in_fork(uint64_t seed, const int *vals, int n, result_t *res, i
     static result_t r; memset(&r, 0, sizeof r);
     r.viol = have_viol; snprintf(r.sig, sizeof r.sig, "%s", viol_sig); snprintf(r.msg, sizeof r.msg, "%s", viol_msg);
     r.loghash = loghash; r.nlog = nlog; r.tape_pos = tape_pos; r.steps = steps; r.sim_us = now_us; r.reqlen = req_len; r.nrec = nrec;
-    r.fault_free = fault_free; r.reset = reset_on_read >= 0; r.epipe = peer_closed_early_at >= 0; r.early_close = close_after >= 0 && close_after < reply_len; r.stale = stale_errno_mode; r.short_io = short_io; r.connect_err = connect_errno != 0; r.eintr = eintr_budget;
+    r.fault_free = fault_free; r.reset = reset_on_read >= 0; r.epipe = peer_closed_early_at >= 0; r.early_close = close_after >= 0 && close_after < reply_len; r.stale = stale_errno_mode; r.short_io = short_io; r.connect_err = connect_errno != 0; r.eintr = eintr_budget + (sig_period_us > 0);
     r.nknown = nknown_hit > 4 ? 4 : nknown_hit; for (int i = 0; i < r.nknown; i++) { strcpy(r.known_sig[i], known_hit_sig[i]); snprintf(r.known_msg[i], 300, "%s", known_hit_msg[i]); }
     char magic[8] = "RESULT1"; if (write(pfd[1], magic, 8) != 8) _exit(9);
     if (write(pfd[1], &r, sizeof r) != (ssize_t)sizeof r) _exit(9);
@@ -568,7 +577,7 @@ static int batch(void) {
     if (pid == 0) {
       have_viol = 0; nrec = 0; tape_pos = 0; nlog = 0; replay_mode = 1; replay_len = 0; keep_log = 0;
       now_us = 0; steps = 0; delivered = 0; req_len = 0; nreads = nwrites = nselects = 0; npw = 0; unwiped = 0; sock_open = sock_closed = 0; trigger_time = -1;
-      socket_errno = connect_errno = 0; reply_trigger = 0; close_after = -1; reset_on_read = -1; peer_stops_reading_at = peer_closed_early_at = -1; eintr_budget = 0; short_io = 0; stale_errno_mode = 0;
+      socket_errno = connect_errno = 0; reply_trigger = 0; close_after = -1; reset_on_read = -1; peer_stops_reading_at = peer_closed_early_at = -1; eintr_budget = 0; short_io = 0; stale_errno_mode = 0; sig_period_us = 0;
       get_user_ret = get_item_ret = set_item_ret = PAM_SUCCESS; conv_mode = 0; stack_authtok = NULL; timeout_s = 3;
       pam_user = "user"; cur_password = "PWpassword";
       if (line[0] == 'R') { reply_len = unhex(line + 2, raw); memcpy(reply, raw, reply_len); }
